@@ -60,27 +60,27 @@ def legs(quick):
     # leg 1: transition cover of the CIDR trie graph (v4), plus the seeded random sequences (v4 and v6)
     out.append(dict(BASE, design=S_DESIGN,
                     gen={"module": "Gen_Trie", "cfg": "Gen_cover_S4q.cfg", "thorough_cfg": "Gen_cover_S4.cfg", "workers": 4,
-                         "max": 400, "thorough_max": 12000, "thorough_timeout": 1500},
-                    n_random=(100, 2000)))
+                         "max": 400, "thorough_max": 8000, "thorough_timeout": 1500},
+                    n_random=(100, 1200)))
     # leg 2: long TLC random walks over both structures (v6)
     out.append(dict(BASE, design=[],
                     gen={"module": "Gen_Trie", "cfg": "Gen_sim6.cfg", "simulate": {"num": 40, "depth": 40},
-                         "thorough_simulate": {"num": 600, "depth": 40}},
+                         "thorough_simulate": {"num": 400, "depth": 40}},
                     n_random=(0, 0)))
     if not quick:
         # thorough only: v6 cover, cover of the LPM index graph, v4 random walks
         out.append(dict(BASE, design=[],
-                        gen={"module": "Gen_Trie", "cfg": "Gen_cover_S6.cfg", "workers": 4, "max": 12000, "timeout": 1500,
+                        gen={"module": "Gen_Trie", "cfg": "Gen_cover_S6.cfg", "workers": 4, "max": 8000, "timeout": 1500,
                              "thorough_timeout": 1500},
                         n_random=(0, 0)))
         out.append(dict(BASE, design=[],
-                        gen={"module": "Gen_Trie", "cfg": "Gen_cover_K4.cfg", "workers": 4, "max": 8000, "thorough_timeout": 1500},
+                        gen={"module": "Gen_Trie", "cfg": "Gen_cover_K4.cfg", "workers": 4, "max": 5000, "thorough_timeout": 1500},
                         n_random=(0, 0)))
         out.append(dict(BASE, design=[],
-                        gen={"module": "Gen_Trie", "cfg": "Gen_cover_K6.cfg", "workers": 4, "max": 4000, "thorough_timeout": 1500},
+                        gen={"module": "Gen_Trie", "cfg": "Gen_cover_K6.cfg", "workers": 4, "max": 2000, "thorough_timeout": 1500},
                         n_random=(0, 0)))
         out.append(dict(BASE, design=[],
-                        gen={"module": "Gen_Trie", "cfg": "Gen_sim4.cfg", "simulate": {"num": 600, "depth": 40}},
+                        gen={"module": "Gen_Trie", "cfg": "Gen_sim4.cfg", "simulate": {"num": 400, "depth": 40}},
                         n_random=(0, 0)))
     return out
 
